@@ -467,10 +467,16 @@ def make_stubs():
 def make_cfg(word, suffix_style=0, filling=False, ms=(2, 2)):
     """pipeline dict for a word (list of step indices); repeated steps get '.N' style suffixes"""
     cfg = {}; seen = {}
-    sufs = [lambda n, k: "%s.%d" % (n, k), lambda n, k: "%s.xxx%d" % (n, k), lambda n, k: "%s.%s" % (n, "abcdefgh"[k])][suffix_style % 3]
+    # styles 0-2: repeated steps get a suffix; 3: a suffix that itself contains a dot ("filter.post.1"); 4: every step is suffixed, the
+    # first occurrence too ("validation.s0" without any plain "validation" key) -- all are the documented "stepname.xxx" convention
+    sufs = [lambda n, k: "%s.%d" % (n, k), lambda n, k: "%s.xxx%d" % (n, k), lambda n, k: "%s.%s" % (n, "abcdefgh"[k]),
+            lambda n, k: "%s.post.%d" % (n, k), lambda n, k: "%s.s%d" % (n, k), lambda n, k: "%s.s%d" % (n, k)][suffix_style % 6]
+    # style 4: the first validation step is suffixed too ("validation.s0", no plain "validation" key); style 5: EVERY first occurrence is
+    # suffixed ("matching_cost.s0", ...): the code looks some steps up by their literal name (known finding KF-C01-suffixed-first-occurrence)
     for pos, a in enumerate(word):
         name = STEPS[a]; k = seen.get(name, 0); seen[name] = k + 1
-        key = name if k == 0 else sufs(name, k)
+        plain_first = k == 0 and not (suffix_style % 6 == 5 or (suffix_style % 6 == 4 and name == "validation"))
+        key = name if plain_first else sufs(name, k)
         c = {METHOD_KEY[name]: "stub", "sid": pos + 1}
         if name == "validation":
             c[METHOD_KEY[name]] = "cross_checking_accurate"
